@@ -637,7 +637,7 @@ V_NewMnemonic(e) ==
   IN IF Raised(e) THEN (IF e.inp.words \in {12, 15, 18, 21, 24} THEN "new-raised" ELSE "ok")
      ELSE IF e.inp.words \notin {12, 15, 18, 21, 24} THEN "new-accepted-illegal-length"
      ELSE IF 8 * SumN(e.requests) < ent THEN "new-fewer-os-bits-than-entropy"
-     ELSE IF \E j \in 1..Len(e.requests) : e.requests[j].src \notin {"os.urandom", "random._urandom"} THEN "new-foreign-entropy-source"
+     ELSE IF \E j \in 1..Len(e.requests) : e.requests[j].src \notin {"os.urandom", "random._urandom", "os.getrandom"} THEN "new-foreign-entropy-source"
      ELSE IF ~e.prng_same THEN "new-touched-the-seedable-generator"
      ELSE IF Len(e.res.v.idx) # e.inp.words THEN "new-word-count"
      ELSE IF \E j \in 1..Len(e.res.v.idx) : e.res.v.idx[j] < 0 THEN "new-word-not-in-list"
